@@ -31,6 +31,7 @@ type bopGen struct {
 	Coq, Desc string
 	Do        func(ctx *build.Context)
 	PassFault string // compile-time fault this op (eventually) causes, "" if none
+	Extra     int    // number of additional model steps this one call stands for
 }
 
 func c18Ops(r *RNG, st *struct {
@@ -44,75 +45,88 @@ func c18Ops(r *RNG, st *struct {
 	switch r.Intn(24) {
 	case 0, 1:
 		st.sigKind = 0
-		return bopGen{"BFunction", "Function", func(c *build.Context) { c.Function(fmt.Sprintf("f%d", r.Intn(1000))) }, ""}
+		return bopGen{"BFunction", "Function", func(c *build.Context) { c.Function(fmt.Sprintf("f%d", r.Intn(1000))) }, "", 0}
 	case 2:
-		return bopGen{"BAttributes", "Attributes", func(c *build.Context) { c.Attributes(attr.NOSPLIT) }, ""}
+		return bopGen{"BAttributes", "Attributes", func(c *build.Context) { c.Attributes(attr.NOSPLIT) }, "", 0}
 	case 3:
-		return bopGen{"BDoc", "Doc", func(c *build.Context) { c.Doc("d") }, ""}
+		return bopGen{"BDoc", "Doc", func(c *build.Context) { c.Doc("d") }, "", 0}
 	case 4:
 		st.sigKind = 1
 		return bopGen{"(BSignature true)", "Signature(ok)", func(c *build.Context) {
 			c.SignatureExpr("func(x uint64, s []byte, p struct{ a, b int32 }, q *int, str string, arr [4]uint32, st struct{ f uint8; g [2]int64 }, pp *struct{ h int32 }) (r uint32, z complex128)")
-		}, ""}
+		}, "", 0}
 	case 5:
-		return bopGen{"(BSignature false)", "Signature(bad expr)", func(c *build.Context) { c.SignatureExpr("func(x uint64") }, ""}
+		return bopGen{"(BSignature false)", "Signature(bad expr)", func(c *build.Context) { c.SignatureExpr("func(x uint64") }, "", 0}
 	case 6, 7, 8:
-		return bopGen{"(BInstr true)", "ADDQ ok", func(c *build.Context) { c.ADDQ(reg.RAX, reg.RBX) }, ""}
+		return bopGen{"(BInstr true)", "ADDQ ok", func(c *build.Context) { c.ADDQ(reg.RAX, reg.RBX) }, "", 0}
 	case 9:
-		return bopGen{"(BInstr false)", "ADDQ bad operands", func(c *build.Context) { c.ADDQ(reg.EAX, reg.RBX) }, ""}
+		return bopGen{"(BInstr false)", "ADDQ bad operands", func(c *build.Context) { c.ADDQ(reg.EAX, reg.RBX) }, "", 0}
 	case 10:
-		return bopGen{"(BInstr false)", "VPADDD wrong arity", func(c *build.Context) { c.VPADDD(reg.X0) }, ""}
+		return bopGen{"(BInstr false)", "VPADDD wrong arity", func(c *build.Context) { c.VPADDD(reg.X0) }, "", 0}
 	case 11:
-		return bopGen{"BLabel", "Label", func(c *build.Context) { st.labels++; c.Label(fmt.Sprintf("l%d", st.labels)) }, ""}
+		return bopGen{"BLabel", "Label", func(c *build.Context) { st.labels++; c.Label(fmt.Sprintf("l%d", st.labels)) }, "", 0}
 	case 12:
-		return bopGen{"BComment", "Comment", func(c *build.Context) { c.Comment("c") }, ""}
+		return bopGen{"BComment", "Comment", func(c *build.Context) { c.Comment("c") }, "", 0}
 	case 13:
-		return bopGen{"BAllocLocal", "AllocLocal", func(c *build.Context) { c.AllocLocal(8) }, ""}
+		return bopGen{"BAllocLocal", "AllocLocal", func(c *build.Context) { c.AllocLocal(8) }, "", 0}
 	case 14:
 		if st.sigKind == 1 {
-			return bopGen{"(BLoad CompOK)", "Load(x)", func(c *build.Context) { c.Load(c.Param("x"), reg.RCX) }, ""}
+			return bopGen{"(BLoad CompOK)", "Load(x)", func(c *build.Context) { c.Load(c.Param("x"), reg.RCX) }, "", 0}
 		}
-		return bopGen{"(BLoad CompUnknown)", "Load(unknown param)", func(c *build.Context) { c.Load(c.Param("nosuch"), reg.RCX) }, ""}
+		return bopGen{"(BLoad CompUnknown)", "Load(unknown param)", func(c *build.Context) { c.Load(c.Param("nosuch"), reg.RCX) }, "", 0}
 	case 15:
 		if st.sigKind == 1 {
-			return bopGen{"(BLoad CompNonPrimitive)", "Load(slice param, not primitive)", func(c *build.Context) { c.Load(c.Param("s"), reg.RCX) }, ""}
+			return bopGen{"(BLoad CompNonPrimitive)", "Load(slice param, not primitive)", func(c *build.Context) { c.Load(c.Param("s"), reg.RCX) }, "", 0}
 		}
-		return bopGen{"(BLoad CompUnknown)", "Load(ParamIndex(7))", func(c *build.Context) { c.Load(c.ParamIndex(7), reg.RCX) }, ""}
+		return bopGen{"(BLoad CompUnknown)", "Load(ParamIndex(7))", func(c *build.Context) { c.Load(c.ParamIndex(7), reg.RCX) }, "", 0}
 	case 16:
 		if st.sigKind == 1 {
-			return bopGen{"(BLoad CompNoMov)", "Load(x into YMM: no mov)", func(c *build.Context) { c.Load(c.Param("x"), reg.Y1) }, ""}
+			return bopGen{"(BLoad CompNoMov)", "Load(x into YMM: no mov)", func(c *build.Context) { c.Load(c.Param("x"), reg.Y1) }, "", 0}
 		}
-		return bopGen{"(BLoad CompUnknown)", "Load(ParamIndex(-1))", func(c *build.Context) { c.Load(c.ParamIndex(-1), reg.RCX) }, ""}
+		return bopGen{"(BLoad CompUnknown)", "Load(ParamIndex(-1))", func(c *build.Context) { c.Load(c.ParamIndex(-1), reg.RCX) }, "", 0}
 	case 17:
 		if st.sigKind == 1 {
-			return bopGen{"(BStore CompOK)", "Store(r)", func(c *build.Context) { c.Store(reg.ECX, c.Return("r")) }, ""}
+			return bopGen{"(BStore CompOK)", "Store(r)", func(c *build.Context) { c.Store(reg.ECX, c.Return("r")) }, "", 0}
 		}
-		return bopGen{"(BStore CompUnknown)", "Store(unknown result)", func(c *build.Context) { c.Store(reg.ECX, c.Return("r")) }, ""}
+		return bopGen{"(BStore CompUnknown)", "Store(unknown result)", func(c *build.Context) { c.Store(reg.ECX, c.Return("r")) }, "", 0}
 	case 18:
 		if st.sigKind == 1 {
-			return bopGen{"(BStore CompNonPrimitive)", "Store(complex result)", func(c *build.Context) { c.Store(reg.RCX, c.Return("z")) }, ""}
+			return bopGen{"(BStore CompNonPrimitive)", "Store(complex result)", func(c *build.Context) { c.Store(reg.RCX, c.Return("z")) }, "", 0}
 		}
-		return bopGen{"(BStore CompUnknown)", "Store(ReturnIndex(3))", func(c *build.Context) { c.Store(reg.ECX, c.ReturnIndex(3)) }, ""}
+		return bopGen{"(BStore CompUnknown)", "Store(ReturnIndex(3))", func(c *build.Context) { c.Store(reg.ECX, c.ReturnIndex(3)) }, "", 0}
 	case 19:
+		if r.Chance(25) { // an empty or blank expression is an empty constraint: an error
+			e := Pick(r, []string{"", " ", "  \t"})
+			return bopGen{"(BConstraints false)", fmt.Sprintf("ConstraintExpr(%q)", e), func(c *build.Context) { c.ConstraintExpr(e) }, "", 0}
+		}
+		if r.Chance(20) {
+			return bopGen{"(BConstraints false)", "Constraint(empty)", func(c *build.Context) { c.Constraint(buildtags.Constraint{}) }, "", 0}
+		}
 		if r.Bool() {
-			return bopGen{"(BConstraints true)", "Constraints(ok)", func(c *build.Context) { c.ConstraintExpr("amd64,!purego") }, ""}
+			return bopGen{"(BConstraints true)", "Constraints(ok)", func(c *build.Context) { c.ConstraintExpr("amd64,!purego") }, "", 0}
 		}
 		return bopGen{"(BConstraints false)", "Constraints(bad)", func(c *build.Context) {
 			c.Constraints(buildtags.Constraints{buildtags.Constraint{buildtags.Option{buildtags.Term("a-b")}}})
-		}, ""}
+		}, "", 0}
 	case 20:
-		return bopGen{"BStaticGlobal", "StaticGlobal", func(c *build.Context) { c.StaticGlobal(fmt.Sprintf("g%d", r.Intn(1000))) }, ""}
+		if r.Chance(35) { // ConstData = StaticGlobal + DataAttributes + AppendDatum: the new section becomes the active one
+			n := []int{8, 4, 16}[r.Intn(3)]
+			return bopGen{fmt.Sprintf("BStaticGlobal; BDataAttributes; (BAppendDatum %d)", n), fmt.Sprintf("ConstData(%d bytes)", n), func(c *build.Context) {
+				c.ConstData(fmt.Sprintf("k%d", r.Intn(1000)), operand.String(strings.Repeat("k", n)))
+			}, "", 2}
+		}
+		return bopGen{"BStaticGlobal", "StaticGlobal", func(c *build.Context) { c.StaticGlobal(fmt.Sprintf("g%d", r.Intn(1000))) }, "", 0}
 	case 21:
-		return bopGen{"BDataAttributes", "DataAttributes", func(c *build.Context) { c.DataAttributes(attr.RODATA) }, ""}
+		return bopGen{"BDataAttributes", "DataAttributes", func(c *build.Context) { c.DataAttributes(attr.RODATA) }, "", 0}
 	case 22:
 		off := 8 * r.Intn(4)
 		n := []int{1, 4, 8, 12}[r.Intn(4)]
 		return bopGen{fmt.Sprintf("(BAddDatum %d %d)", off, n), fmt.Sprintf("AddDatum(%d, %d bytes)", off, n), func(c *build.Context) {
 			c.AddDatum(off, operand.String(strings.Repeat("x", n)))
-		}, ""}
+		}, "", 0}
 	default:
 		n := []int{1, 8}[r.Intn(2)]
-		return bopGen{fmt.Sprintf("(BAppendDatum %d)", n), fmt.Sprintf("AppendDatum(%d bytes)", n), func(c *build.Context) { c.AppendDatum(operand.String(strings.Repeat("y", n))) }, ""}
+		return bopGen{fmt.Sprintf("(BAppendDatum %d)", n), fmt.Sprintf("AppendDatum(%d bytes)", n), func(c *build.Context) { c.AppendDatum(operand.String(strings.Repeat("y", n))) }, "", 0}
 	}
 }
 
@@ -187,6 +201,9 @@ func c18(c *Ctx) {
 				desc = append(desc, op.Desc)
 				op.Do(ctx)
 				after = append(after, errCount())
+				for k := 0; k < op.Extra; k++ { // one call that stands for several model steps
+					after = append(after, errCount())
+				}
 			}
 			// compile-time faults appended at the end of some otherwise valid histories
 			if rng.Chance(15) {
@@ -397,5 +414,5 @@ func loadPathOp(r *RNG) bopGen {
 			comp = st(comp)
 		}
 		c.Load(comp, reg.RCX)
-	}, ""}
+	}, "", 0}
 }
